@@ -133,6 +133,24 @@ func cmdHelpers(args []string) int {
 			fmt.Println("not a waitsem case")
 			return 2
 		}
+		if strings.HasSuffix(*replay, ".xcase") {
+			for _, l := range strings.Split(string(b), "\n") {
+				var sd int64
+				if n, _ := fmt.Sscanf(l, "indexviews seed=%d", &sd); n == 1 {
+					fails, line := helpers.IndexViewScenario(sd)
+					fmt.Println(line)
+					for _, f := range fails {
+						fmt.Println("MONITOR C20:", f)
+					}
+					if len(fails) > 0 {
+						return 1
+					}
+					return 0
+				}
+			}
+			fmt.Println("not an index-view case")
+			return 2
+		}
 		if strings.HasSuffix(*replay, ".ccase") {
 			for _, l := range strings.Split(string(b), "\n") {
 				var sd int64
@@ -701,6 +719,35 @@ func cmdPipes(args []string) int {
 	rule := fs.String("rule", "new", "model duplicate rule: new|old")
 	search := fs.Bool("search", false, "")
 	fs.Parse(args)
+	if *replay != "" && strings.HasSuffix(*replay, ".mcase") {
+		b, err := os.ReadFile(*replay)
+		if err != nil {
+			fmt.Println(err)
+			return 2
+		}
+		for _, l := range strings.Split(string(b), "\n") {
+			var sd int64
+			var fails []string
+			var line string
+			if n, _ := fmt.Sscanf(l, "multibind seed=%d", &sd); n == 1 {
+				fails, line = pipes.MultiBindScenario(sd)
+			} else if n, _ := fmt.Sscanf(l, "netpipe seed=%d", &sd); n == 1 {
+				fails, line = pipes.NetmachScenario(sd)
+			} else {
+				continue
+			}
+			fmt.Println(line)
+			for _, f := range fails {
+				fmt.Println("MONITOR C18:", f)
+			}
+			if len(fails) > 0 {
+				return 1
+			}
+			return 0
+		}
+		fmt.Println("not a multi-binding / netmach pipe case")
+		return 2
+	}
 	if *replay != "" {
 		c, err := pipes.LoadCase(*replay)
 		if err != nil {
@@ -890,6 +937,22 @@ func cmdCore(args []string) int {
 		fmt.Println("not a schemagrow case")
 		return 2
 	}
+	if *replay != "" && strings.HasSuffix(*replay, ".icase") {
+		c, err := core.LoadCase(*replay)
+		if err != nil {
+			fmt.Println(err)
+			return 2
+		}
+		fs := core.ImportDetCase(c, 256)
+		fmt.Println("export/import determinism", core.ImportDetStats)
+		for _, f := range fs {
+			fmt.Println("MONITOR C11:", f)
+		}
+		if len(fs) > 0 {
+			return 1
+		}
+		return 0
+	}
 	if *replay != "" && strings.HasSuffix(*replay, ".tcase") {
 		sd, d, err := core.LoadTracers(*replay)
 		if err != nil {
@@ -989,6 +1052,27 @@ func cmdCore(args []string) int {
 		}
 		res.Extra["reader_stress"] = core.ReaderStats
 	}
+	if *prop == "C11" {
+		// Export -> Import -> the rest of the history, re-executed: run against run on the real machine
+		ni, reps := 150, 64
+		if *tier == "thorough" {
+			ni, reps = 1500, 256
+		}
+		if *search {
+			ni *= 4
+		}
+		ifails, icases := core.ImportDeterminism(*seed, o, ni, reps)
+		for i, f := range ifails {
+			file := filepath.Join(*out, fmt.Sprintf("C11-seed%d-import%d.icase", *seed, i))
+			os.WriteFile(file, []byte("# "+f+"\n# the first half of the operations runs on a machine which is exported, a fresh machine imports it and runs the rest\n"+icases[i].String()+"\n"), 0o644)
+			res.Failures = append(res.Failures, core.FailRec{Prop: "C11", Msg: f, File: file})
+		}
+		res.Evaluations += core.ImportDetStats["executions"]
+		if res.Extra == nil {
+			res.Extra = map[string]any{}
+		}
+		res.Extra["export_import_determinism"] = core.ImportDetStats
+	}
 	if *prop == "C06" {
 		// subscriptions across schema growth (SetSchema), judged by ground truth on the real machine
 		ng := 200
@@ -1065,6 +1149,7 @@ func cmdSchemas(tier string, seed int64, driver, out, result string, search bool
 			Id, Pkg, Name string
 			Names         []string
 			Defs          []map[string]any
+			Raw           map[string]core.RawState
 			Groups        map[string][]int
 		} `json:"schemas"`
 		UndefinedRefs []struct {
@@ -1090,6 +1175,7 @@ func cmdSchemas(tier string, seed int64, driver, out, result string, search bool
 		id     string
 		sch    *core.Schema
 		groups map[string][]int
+		raw    map[string]core.RawState
 	}
 	var reachJobs []reachJob
 	r := rand.New(rand.NewSource(seed))
@@ -1152,7 +1238,7 @@ func cmdSchemas(tier string, seed int64, driver, out, result string, search bool
 			sch.Defs[i].Require = rq
 		}
 		sch.Alpha = core.ComputeAlpha(sch.Names)
-		reachJobs = append(reachJobs, reachJob{id: s.Id, sch: sch, groups: s.Groups})
+		reachJobs = append(reachJobs, reachJob{id: s.Id, sch: sch, groups: s.Groups, raw: s.Raw})
 		var gparts []string
 		for g, l := range s.Groups {
 			gparts = append(gparts, g+":"+core.ShowList(l))
@@ -1205,7 +1291,7 @@ func cmdSchemas(tier string, seed int64, driver, out, result string, search bool
 		go func(i int) {
 			defer rwg.Done()
 			defer func() { <-sem }()
-			reach[i] = core.ReachSchema(reachJobs[i].id, reachJobs[i].sch, reachJobs[i].groups, budget)
+			reach[i] = core.ReachSchema(reachJobs[i].id, reachJobs[i].sch, reachJobs[i].groups, budget, reachJobs[i].raw)
 		}(i)
 	}
 	rwg.Wait()
